@@ -88,3 +88,38 @@ Proof.
   - repeat (apply Forall_cons; [first [exact I | split; vm_compute; reflexivity]|]). apply Forall_nil.
   - eexists. eexists. split; [vm_compute; reflexivity|]. vm_compute. repeat split. right. left. reflexivity.
 Qed.
+
+(* exactly one key result at the C level: after any key-entry call (chewing_handle_* / Default / CtrlNum / Numlock with
+   any int, in any state of the context) at most one of chewing_keystroke_CheckIgnore, chewing_keystroke_CheckAbsorb and
+   chewing_commit_Check is 1 - none of them is the bell -, each is 0 or 1.  (chewing_handle_CtrlNum with a key that is
+   no digit returns -1 and handles nothing: the context is the one before.) *)
+Theorem C06_at_most_one_result_flag_after_a_key_call : forall conv (c : cctx) o c',
+  key_call o -> cstep conv c o = Ok c' ->
+  c' = c \/
+  ((chewing_keystroke_CheckIgnore c' = 0 \/ chewing_keystroke_CheckIgnore c' = 1) /\
+   (chewing_keystroke_CheckAbsorb c' = 0 \/ chewing_keystroke_CheckAbsorb c' = 1) /\
+   (chewing_commit_Check c' = 0 \/ chewing_commit_Check c' = 1) /\
+   chewing_keystroke_CheckIgnore c' + chewing_keystroke_CheckAbsorb c' + chewing_commit_Check c' <= 1)%Z.
+Proof.
+  intros conv c o c' Hk H.
+  destruct (c_commit_check_only_with_commit conv c o c' Hk H) as [->|K]; [now left | right].
+  unfold chewing_keystroke_CheckIgnore, chewing_keystroke_CheckAbsorb, chewing_commit_Check, flag, c_flags in *. cbn [List.nth] in *.
+  destruct (commit_buf (sh (cx_ed c'))) as [|x l] eqn:Ec; cbn [negb bz] in *.
+  - destruct (last (sh (cx_ed c'))); cbn; repeat split; auto; discriminate.
+  - destruct (K eq_refl) as (K1 & K2 & _). rewrite K1, K2. repeat split; auto. discriminate.
+Qed.
+Print Assumptions C06_at_most_one_result_flag_after_a_key_call.
+
+(* ... an ignored key-entry call leaves the whole context as it was and commits nothing; one answered with the bell
+   leaves the pre-edit buffer (symbols, break / glue marks, choices), the cursor and the saved cursors as they were *)
+From LC Require Import Proofs.CapiResult.
+Theorem C06_ignored_or_bell_key_call_changes_nothing : forall conv (c : cctx) o c',
+  key_call o -> cstep conv c o = Ok c' ->
+  c' = c \/
+  ((chewing_keystroke_CheckIgnore c' = 1%Z ->
+    persist_eq (sh (cx_ed c')) (sh (cx_ed c)) /\ st (cx_ed c') = st (cx_ed c) /\ chewing_commit_Check c' = 0%Z /\
+    cx_kb c' = cx_kb c /\ cx_kbcompat c' = cx_kbcompat c /\ cx_sel c' = cx_sel c /\
+    chewing_buffer_Len c' = chewing_buffer_Len c /\ chewing_cursor_Current c' = chewing_cursor_Current c) /\
+   (last (sh (cx_ed c')) = BBell -> com (sh (cx_ed c')) = com (sh (cx_ed c)))).
+Proof. exact c_ignored_or_bell_key_call. Qed.
+Print Assumptions C06_ignored_or_bell_key_call_changes_nothing.
